@@ -167,8 +167,13 @@ Definition find_child_node (k : N) (c : list tree) : option tree :=
 Definition first_nontrivia (c : list tree) : option tree :=
   find (fun t => negb (is_trivia (tree_kind t))) c.
 
+(* the token kinds Literal::kind can classify (anything else is its unreachable!()) *)
+Definition literal_token_kind (k : N) : bool :=
+  existsb (N.eqb k) [K_INT_NUMBER; K_FLOAT_NUMBER; K_STRING; K_BIT_STRING; K_CHAR; K_BYTE; K_TRUE_KW; K_FALSE_KW].
+
 (* walks the tree in pre-order; returns byte ranges of bad timing literals, or a panic:
-   20 = Literal::token unwrap, 21 = TimingLiteral::identifier unwrap, 22 = text_of_first_token *)
+   20 = Literal::token unwrap, 21 = TimingLiteral::identifier unwrap, 22 = text_of_first_token,
+   23 = Literal::kind unreachable (the first token of a LITERAL node is not a literal token) *)
 Fixpoint validate (t : tree) (off : N) : bres (list (N * N)) :=
   match t with
   | Leaf _ _ => BOk []
@@ -176,7 +181,7 @@ Fixpoint validate (t : tree) (off : N) : bres (list (N * N)) :=
       let here :=
         if N.eqb k K_LITERAL then
           match first_nontrivia c with
-          | Some (Leaf _ _) => BOk []
+          | Some (Leaf lk _) => if literal_token_kind lk then BOk [] else BPanic 23
           | _ => BPanic 20
           end
         else if N.eqb k K_TIMING_LITERAL then
